@@ -82,8 +82,19 @@ def parse_type(p):
         p.eat("mut")
         return parse_type(p)
     if p.eat("("):
+        if p.eat(")"):
+            return "()"
+        parts = [parse_type(p)]
+        while p.eat(","):
+            parts.append(parse_type(p))
         p.expect(")")
-        return "()"
+        return "(" + ",".join(parts) + ")"
+    if p.eat("["):
+        inner = parse_type(p)
+        if p.eat(";"):
+            p.next()
+        p.expect("]")
+        return "[" + inner + "]"
     if p.peek()[0] == "life":
         p.next()
         return "'_"
@@ -153,7 +164,10 @@ def parse_postfix(p, e, nostruct):
             p.next()
             k, v = p.next()
             if k == "num":
-                raise Unsupported("tuple field")
+                if not v.isdigit():
+                    raise Unsupported(f"tuple field {v}")
+                e = ("tfield", e, int(v))
+                continue
             if k != "id":
                 raise Unsupported(f"after '.': {v!r}")
             if p.eat("("):
@@ -417,6 +431,10 @@ def parse_file(src):
         p.eat("pub")
         if p.at("(") :
             skip_balanced(p, "(", ")")
+        if p.at("mod") and p.peek(1)[0] == "id" and p.at("{", 2):
+            p.next(); p.next()
+            skip_balanced(p)
+            continue
         if p.at("use") or p.at("mod"):
             while not p.eat(";"):
                 if p.at("{"):
